@@ -224,4 +224,20 @@ theorem inv_view {w : World} (h : Inv w) (hok : HeapOk w) {k : Nat} {o : Obj} (h
     · rintro rfl
       exact hi.acyclic _ (Relation.TransGen.single hfol)
 
+/-- for the names of reachable worlds a listener id in use means that very link exists: `p2` is a target -/
+theorem idInUse_isTarget {w : World} {k : Nat} {o : Obj} (h : ObjInv w k o) {p1 p2 : String} (hp2 : p2 ∈ shortNames w o)
+    (hc : (svOf w o).links.any (fun l => aliasId l.1 l.2 == aliasId p1 p2) = true) : (svOf w o).isTarget p2 = true := by
+  simp only [List.any_eq_true, beq_iff_eq] at hc
+  obtain ⟨⟨x, y⟩, hl, hid⟩ := hc
+  obtain ⟨_, hy, _⟩ := (mem_linksOf h).1 hl
+  have plain : ∀ z, z ∈ shortNames w o → Plain z := by
+    intro z hz
+    obtain ⟨t, ht, htn⟩ := (mem_shortNames h).1 hz
+    obtain ⟨z', hz', pz⟩ := h.plain t ht
+    have : z' = z := append_left_cancel' (hz'.symm.trans htn)
+    exact this ▸ pz
+  obtain ⟨_, e2⟩ := aliasId_inj (plain y hy) (plain p2 hp2) hid
+  simp only [SV.isTarget, List.any_eq_true, beq_iff_eq]
+  exact ⟨(x, y), hl, e2⟩
+
 end Bpp.Alias
